@@ -29,6 +29,7 @@ RULE = ('one evaluation = one seeded run: a sequence of 10-80 calls f(*args, **k
         'distinct = SHA-256 of the case / event log')
 RULE += ' ' + 'The argument alphabet includes long (2 KB) str / bytes arguments in pairs that agree in length, first and last kilobyte, byte sum and Adler-32.'
 RULE += ' ' + 'Keyword names include parameter names of the memoizing machinery (ignore, typed, base, name, expire, tag, key, args, kwargs, self, func, default, retry); one seed in 97 passes the same argument once as one object twice and once as two equal objects.'
+RULE += ' ' + 'The probe function records the arguments it was called with: everything the caller passed, ignored ones included.'
 ASSUMPTIONS = ['the probe function ignores the arguments listed in `ignore` (a function whose result depends on ignored arguments is outside the contract)',
                'without typed=True, numerically equal arguments (1, 1.0, True) may or may not share an entry; results are compared with ==']
 PROBES = ('hits', 'expired_recompute', 'stampede_threads', 'typed_runs', 'ignore_runs', 'functions', 'raising_calls', 'falsy_results', 'keys_compared_across_interpreters', 'identity_pairs')
